@@ -117,6 +117,7 @@ class Conn:
         self.writer = Writer()
         self.task = w.loop.create_task(w.server.handle_connection(self.reader, self.writer))
         self.eof = False
+        self.dirty = False
 
     @property
     def alive(self):
@@ -196,12 +197,16 @@ def run_case(case):
         for step in case["steps"]:
             w.step_no += 1
             op = step[0]
-            if op in ("enqueue", "states", "cancel", "close", "bad", "shape", "eof"):
+            if op in ("enqueue", "states", "cancel", "close", "bad", "shape", "eof", "raw"):
                 cid = step[1]
                 c = conns.get(cid)
-                if c is None or not c.alive:
+                healthy_op = op in ("enqueue", "states", "cancel", "close")
+                # a healthy request comes from a client that has not misbehaved on this connection
+                if c is None or not c.alive or (healthy_op and c.dirty):
                     c = conns[cid] = Conn(w)
                     vpool.settle(w.loop)
+                if not healthy_op:
+                    c.dirty = True
             running_now = any(p.alive for p in w.procs)
             if op == "enqueue":
                 idx = len(w.tasks)
@@ -257,6 +262,28 @@ def run_case(case):
                 send(c, BAD[step[2]])
                 c.writer.take_lines()
                 labels.add("malformed")
+                if running_now:
+                    malformed_while_running = True
+            elif op == "raw":
+                # arbitrary bytes (from the coverage-guided campaign); latin-1 carries every byte value
+                data = step[2].encode("latin1")
+                # a line that parses as an enqueue request with a string script may be accepted: give it a model
+                for line in data.split(b"\n"):
+                    try:
+                        m = json.loads(line)
+                        if isinstance(m, dict) and isinstance(m.get("script"), str) and m["script"] not in w.by_script:
+                            w.by_script[m["script"]] = vpool.TaskModel(len(w.tasks), None, str(m.get("name")), [], None, False, b"", b"")
+                    except ValueError:
+                        pass
+                send(c, data)
+                for r in replies(c):
+                    if isinstance(r, dict) and r.get("__kind__") == "task_enqueued":
+                        tid = r.get("tid")
+                        if tid in accepted:
+                            v("duplicate-task-id", f"id {tid!r} handed out twice")
+                        accepted.append(tid)
+                        shape_tids.add(tid)
+                labels.add("raw-bytes")
                 if running_now:
                     malformed_while_running = True
             elif op == "shape":
@@ -334,3 +361,60 @@ def run_case(case):
     finally:
         w.close()
     return CaseResult(viols, malformed_while_running and healthy_after, sorted(labels))
+
+
+def extra_phases(tier, seed, shard, nshards, stats, run_one):
+    """Coverage-guided tier.  quick: the committed fuzz corpus is decoded and replayed in-process (shard 0).
+    thorough: an atheris/libFuzzer campaign per shard (first 8 shards), seeded with that corpus; every input
+    the campaign flags is replayed through run_case here, so a violation gets the usual replay file."""
+    import glob
+    import os
+    import re
+    import shutil
+    import subprocess
+    import sys
+    import tempfile
+
+    from vlib import fuzz14
+    from vlib.runner import VERIF
+
+    cdir = os.path.join(VERIF, "corpus", "C14", "fuzz")
+    files = sorted(glob.glob(os.path.join(cdir, "*")))
+    if tier == "quick":
+        if shard == 0:
+            n = 0
+            for f in files:
+                with open(f, "rb") as fh:
+                    case = fuzz14.decode(fh.read())
+                n += 1
+                if run_one(case):
+                    break
+            stats.extra["fuzz_corpus_replayed"] = n
+        return
+    if shard >= 8:
+        return
+    tmp = tempfile.mkdtemp(prefix="gwffuzz", dir="/dev/shm" if os.path.isdir("/dev/shm") else None)
+    try:
+        corpus, out = os.path.join(tmp, "corpus"), os.path.join(tmp, "out")
+        os.makedirs(corpus)
+        os.makedirs(out)
+        for f in files:
+            shutil.copy(f, corpus)
+        secs = int(os.environ.get("VERIF_FUZZ_S", "240"))
+        env = dict(os.environ)
+        p = subprocess.run([sys.executable, os.path.join(VERIF, "vlib", "fuzz14.py"), corpus, out,
+                            f"-max_total_time={secs}", f"-seed={seed * 1000 + shard + 1}", "-max_len=512",
+                            f"-artifact_prefix={tmp}/"], cwd=tmp, env=env, capture_output=True, text=True,
+                           timeout=secs + 300)
+        m = re.search(r"Done (\d+) runs", p.stdout + p.stderr)
+        stats.extra["fuzz_execs"] = stats.extra.get("fuzz_execs", 0) + (int(m.group(1)) if m else 0)
+        stats.extra["fuzz_campaigns"] = stats.extra.get("fuzz_campaigns", 0) + 1
+        if "No module named 'atheris'" in (p.stdout + p.stderr):
+            stats.notes.append("atheris not installed: coverage-guided tier skipped")
+        for vf in sorted(glob.glob(os.path.join(out, "violation-*.json"))):
+            with open(vf) as fh:
+                case = json.load(fh)["case"]
+            if run_one(case):
+                break
+    finally:
+        shutil.rmtree(tmp, ignore_errors=True)
